@@ -1,8 +1,8 @@
 (* C07 property theorems. This file contains only statements closed by
    [exact lemma] and Print Assumptions. *)
-From V Require Import Common.Base Common.Utf8 C07.LineCol C07.Builder C07.BuilderProofs C07.LineColAux C07.LineColProofs C07.Shift C07.ShiftAux C07.ShiftProofs C07.Vlq C07.SpecMap C07.Mappings C07.VlqProofs C07.MappingsProofs C07.FindProofs C07.JoinProofs C07.SpecBuilder C07.BuilderExact C07.JoinAll C07.JoinAllProofs C07.Pipeline C07.BuilderIn C07.BuilderInProofs C07.AdvConcat C07.ParseMap C07.ParseMapProofs.
+From V Require Import Common.Base Common.Utf8 C07.LineCol C07.Builder C07.BuilderProofs C07.LineColAux C07.LineColProofs C07.Shift C07.ShiftAux C07.ShiftProofs C07.Vlq C07.SpecMap C07.Mappings C07.VlqProofs C07.MappingsProofs C07.FindProofs C07.JoinProofs C07.SpecBuilder C07.BuilderExact C07.JoinAll C07.JoinAllProofs C07.JoinNullProofs C07.Pipeline C07.BuilderIn C07.BuilderInProofs C07.AdvConcat C07.ParseMap C07.ParseMapProofs.
 From V Require C16.Checked C16.Vlq16 C16.Vlq16Proofs.
-From V Require C19.Json C19.JsonSpec C19.JsonProofs C07.SmJson C07.SmJsonProofs C07.SmPipeline.
+From V Require C19.Json C19.JsonSpec C19.JsonProofs C07.SmJson C07.SmJsonProofs C07.SmPipeline C07.PipelineNull.
 
 (* encodeVLQ/DecodeVLQ round trip, every integer, arbitrary trailing bytes *)
 Theorem vlq_roundtrip : forall v rest, DecodeVLQ (encodeVLQ v ++ rest) = Some (v, rest).
@@ -133,15 +133,19 @@ Print Assumptions builder_mappings_exact.
    its text = start + (number of line breaks, final column) -- with the file's
    "sources" index added to the source index and the number of names of the
    earlier files added to the name index. By induction over the file list on
-   top of join_bytes. (Null entries are modelled and tied by correspondence;
-   the theorem is about lists without them.) *)
-Theorem join_all_decodes : forall fs,
-  Forall file_ok fs ->
-  let tbl := assign_sources (map res_of fs) [] 0 in
-  exists m, join_all (map res_of fs) = Some m /\
-            m = emit_bytes (joined_ops tbl fs 0 0) /\
-            spec_decode m = Some (joined_abs tbl fs (0, 0) 0).
-Proof. exact join_all_decodes_all. Qed.
+   top of join_bytes.  The list may contain null entries (a file without
+   mappings after a file with mappings): each contributes one mapping without
+   original position at the place where the previous file's text ended; the
+   linker's bookkeeping after a null entry on one line carries a common excess
+   in prevEndState's column and prevColumnOffset (JoinNullProofs.v: drift),
+   which cancels in every delta it writes. *)
+Theorem join_all_decodes : forall items,
+  Forall item_ok items ->
+  let tbl := assign_sources (map res_of_item items) [] 0 in
+  exists m, join_all (map res_of_item items) = Some m /\
+            m = emit_bytes (joined_ops_i tbl items 0 0) /\
+            spec_decode m = Some (joined_abs_i tbl items (0, 0) 0).
+Proof. exact join_all_decodes_items. Qed.
 Print Assumptions join_all_decodes.
 
 (* the "sources" numbering used above: distinct source indices get 0,1,2,...
@@ -156,8 +160,9 @@ Print Assumptions sources_table_first_appearance.
 (* End to end over the modelled code: n source files, each with its original
    text, its AddSourceMapping calls (locs at character boundaries, at least one
    call) and its output text, placed by the linker at offsets that are
-   positions (no input source maps: coverLinesWithoutMappings on), any
-   well-formed shift list.  Every builder run succeeds, the joining loop of
+   positions (no input source maps: coverLinesWithoutMappings on), possibly
+   interleaved with null entries (files without mappings), any well-formed
+   shift list.  Every builder run succeeds, the joining loop of
    generateSourceMapForChunk does not panic, Finalize succeeds, and the final
    mappings string denotes exactly: for every file in order, the mappings
    specified by SpecBuilder.v (generated position of the output so far |->
@@ -166,15 +171,16 @@ Print Assumptions sources_table_first_appearance.
    index, name index + number of names of earlier files, and every generated
    column moved by the shift that applies at that position.
    Composes builder_mappings_exact, join_all_decodes, finalize_moves_columns. *)
-Theorem pipeline_exact : forall (sfs : list src_file) sh,
-  Forall src_ok sfs -> shifts_wf sh ->
+Theorem pipeline_exact : forall (sis : list PipelineNull.src_item) sh,
+  Forall PipelineNull.src_item_ok sis -> shifts_wf sh ->
   exists rs m result,
-    map built_res sfs = map Some rs /\
+    map PipelineNull.built_item sis = map Some rs /\
     join_all rs = Some m /\
     Finalize sh m = Some result /\
+    result = emit_bytes (shift_ops sh (joined_ops_i (assign_sources rs [] 0) (map PipelineNull.spec_item sis) 0 0) 0) /\
     spec_decode result =
-      Some (map (shift_abs sh) (joined_abs (assign_sources rs [] 0) (map spec_file sfs) (0, 0) 0)).
-Proof. exact pipeline_exact_all. Qed.
+      Some (map (shift_abs sh) (joined_abs_i (assign_sources rs [] 0) (map PipelineNull.spec_item sis) (0, 0) 0)).
+Proof. exact PipelineNull.pipeline_exact_items. Qed.
 Print Assumptions pipeline_exact.
 
 (* Composition through an input source map. The ChunkBuilder created with a
@@ -312,17 +318,17 @@ Print Assumptions sourcemap_text_parses.
    altogether with --sources-content=false) --, whose "names" are the given
    names and whose "mappings" is the string that pipeline_exact decodes. *)
 Theorem sourcemap_json_wellformed_and_faithful :
-  forall (sfs : list src_file) sh ascii (items : list (bytes * bytes)) root excl (names : list bytes),
-  Forall src_ok sfs -> shifts_wf sh ->
+  forall (sis : list PipelineNull.src_item) sh ascii (items : list (bytes * bytes)) root excl (names : list bytes),
+  Forall PipelineNull.src_item_ok sis -> shifts_wf sh ->
   Forall (fun it => JsonProofs.bytes_ok (fst it) /\ JsonProofs.bytes_ok (snd it)) items ->
   (forall r, root = Some r -> JsonProofs.bytes_ok r) -> Forall JsonProofs.bytes_ok names ->
   exists rs m result,
-    map built_res sfs = map Some rs /\
+    map PipelineNull.built_item sis = map Some rs /\
     join_all rs = Some m /\
     Finalize sh m = Some result /\
     spec_decode result =
-      Some (map (shift_abs sh) (joined_abs (assign_sources rs [] 0) (map spec_file sfs) (0, 0) 0)) /\
+      Some (map (shift_abs sh) (joined_abs_i (assign_sources rs [] 0) (map PipelineNull.spec_item sis) (0, 0) 0)) /\
     JsonSpec.parse_json (SmJsonProofs.sourcemap_text_items ascii items root excl result names) =
       Some (SmJsonProofs.sm_jv (map fst items) root (if excl then None else Some (map snd items)) result names).
-Proof. exact SmPipeline.sourcemap_json_all. Qed.
+Proof. exact PipelineNull.sourcemap_json_items. Qed.
 Print Assumptions sourcemap_json_wellformed_and_faithful.
